@@ -629,6 +629,17 @@ func (g *Gen) allocFam(a *ssa.Alloc) string {
 
 // ---------- instructions ----------
 
+// valOpt is val for values that may be outside the modelled subset: nil instead of an out-of-subset report
+func (g *Gen) valOpt(v ssa.Value) (r *Val) {
+	defer func() {
+		if recover() != nil {
+			r = nil
+		}
+	}()
+	x := g.val(v)
+	return &x
+}
+
 func (g *Gen) val(v ssa.Value) Val {
 	switch c := v.(type) {
 	case *ssa.Const:
@@ -848,6 +859,13 @@ func (g *Gen) instr(ins ssa.Instruction, b *ssa.BasicBlock, in map[*ssa.BasicBlo
 		if g.con != nil && (len(g.con.After) > 0 || len(g.con.AfterGhost) > 0) && len(g.inlineStack) == 0 {
 			for _, k := range g.callKeys(x) {
 				cx := g.ctxHere()
+				// actual arguments of the call (a method's receiver is lastarg0): lets a hint speak about what was
+				// really passed, not about the locals the unchanged code happens to pass
+				for ai, a := range x.Call.Args {
+					if av := g.valOpt(a); av != nil {
+						cx.vars[fmt.Sprintf("lastarg%d", ai)] = *av
+					}
+				}
 				if sv := g.env[x]; sv != nil {
 					cx.vars["lastcall"] = sv.V
 					// components of a tuple result: lastcall0, lastcall1, ...
